@@ -747,8 +747,6 @@ class Interp:
                     sf = o.cls.find_method(s)
                     self.call_function(SFunc(sf), [v, val], {})
                     return
-            if o.frozen:
-                raise OutOfSubset("write to frozen object")
             self.P.log_write(o, ("attr", name))
             o.fields[name] = val
             return
@@ -1432,8 +1430,6 @@ class Interp:
                 if isinstance(k, tuple):
                     raise OutOfSubset("slice assignment")
                 i = self.concrete_index(k, len(h.items))
-                if h.frozen:
-                    raise OutOfSubset("write to frozen list")
                 self.P.log_write(h, ("item", i))
                 h.items[i] = v
                 return
